@@ -240,10 +240,11 @@ func VC18_Registry() {
 	vReach("end")
 }
 
-func VC18_Value_F()      { vc18Value(-1) }
-func VC18_Value_R()      { vc18Value(-1) }
-func VC18_Monotone_R()   { vc18Monotone(-1) }
+func VC18_Value_F()    { vc18Value(-1) }
+func VC18_Value_R()    { vc18Value(-1) }
+func VC18_Monotone_R() { vc18Monotone(-1) }
+
 // bit-exact monotonicity for the functions without transcendental or quadratic terms
 func VC18_Monotone_F() { vc18Monotone([]int{13, 15, 19}[vChoice("linear/clipped/step", 3)]) }
 func VC18_Modules_R()  { vc18Modules(3) }
-func VC18_Modules_F()    { vc18Modules(3) }
+func VC18_Modules_F()  { vc18Modules(3) }
